@@ -130,6 +130,16 @@ def run(seed=0, tier='quick', hints=None, broken=False):
         c = rng.choice(cfgs)
         check(c['cls'] + '-replayed', [c], dict(case, via_replay=True), viol)
         evals += 1
+        # the same transform inside containers (one or two levels deep, always firing): the additional image / mask
+        # targets must reach it there as well
+        for c in rng.sample(cfgs, 3):
+            node = c
+            kinds = [rng.choice(['Sequential', 'OneOf', 'SomeOf', 'Compose']) for _ in range(rng.randint(1, 2))]
+            for kind in kinds:
+                node = {'op': kind, 'children': [node], 'args': dict({'p': 1.0}, **({'n': 1} if kind == 'SomeOf' else {}))}
+            check(c['cls'] + '-in-' + '-'.join(reversed(kinds)), [node], case, viol)
+            evals += 1
+            seen.add((c['cls'], 'nested', tuple(kinds)))
         second = [S.L('HorizontalFlip'), S.L('Transpose'), S.L('RandomRotate90', axes=rng.choice(S.PLANES)),
                   S.L('SliceFlip')]
         for c in rng.sample(cfgs, 4):
